@@ -97,6 +97,7 @@ def check_trace(prog, trace, mdl, part, extra=False, idnmsgs=None, src="hist", f
     wit = {"history": " ".join(prog)}
     led = trace[-1][-1] == 1
     create_failures = 0
+    pending_failed_setup = False
     for op, st in zip(prog, trace[:-1]):
         kind = st[0]
         if op[0] == "r" or op[0] == "F" or op[0] == "C":
@@ -113,6 +114,7 @@ def check_trace(prog, trace, mdl, part, extra=False, idnmsgs=None, src="hist", f
                 create_failures = st[5]
             if 0 <= rfc <= 3:
                 if injected:
+                    pending_failed_setup = True
                     cnt["setup.create-failure-injected"] += 1
                     if sr == 0:
                         part["viol"].append(("setup/back-end-failure-ignored", wit, {"rfc": rfc, "ret": sr, "source": src}))
@@ -128,6 +130,7 @@ def check_trace(prog, trace, mdl, part, extra=False, idnmsgs=None, src="hist", f
                     part["viol"].append(("setup/undefined-mode-return", wit, {"rfc": rfc, "ret": sr, "source": src}))
                 # after a failed setup eav_errstr reports the invalid-RFC condition - the same text a fresh object gives
                 last_msg, last_err = None, None
+                pending_failed_setup = True
                 if setup_ref is not None:
                     cnt["failed-setup.message-compared"] += 1
                     if st[3] != setup_ref[0]:
@@ -186,8 +189,11 @@ def check_trace(prog, trace, mdl, part, extra=False, idnmsgs=None, src="hist", f
                 part["viol"].append(("ledger/live-blocks-after-is_email/%+d" % (live - expblocks), wit,
                                      {"step": op, "live": live, "expected": expblocks, "source": src}))
             last_msg, last_err = obs[2], obs[1]
+            pending_failed_setup = False
         elif op == "m":
             cnt["errstr.reread"] += 1
+            if last_msg is None and not pending_failed_setup and (st[2] != 0 or not st[1]):
+                part["viol"].append(("errstr/before-any-validation", wit, {"message": st[1], "errcode": st[2], "source": src}))
             if last_msg is not None and (st[1] != last_msg or st[2] != last_err):
                 part["viol"].append(("errstr/not-the-last-validation", wit, {"message": st[1], "errcode": st[2],
                                      "last_validation": [last_err, last_msg], "source": src}))
@@ -197,6 +203,7 @@ def check_trace(prog, trace, mdl, part, extra=False, idnmsgs=None, src="hist", f
                 part["viol"].append(("ledger/live-blocks-after-free/%+d" % st[1], wit, {"live": st[1], "source": src}))
             confirmed, tld, allow = -1, 1, mdl.default_allow
             last_msg = None
+            pending_failed_setup = False
     end = trace[-1]
     if led and end[1] != 0:
         part["viol"].append(("ledger/live-blocks-at-end/%+d" % end[1], wit, {"live": end[1], "source": src}))
